@@ -16,7 +16,12 @@ let parse_decl (w : string) : decl =
       d_toggles = List.map (fun e -> match split_char ':' e with
         | [n; s; ev; df; r] -> { t_name = str_of_hex n; t_short = opt_of byte_of_hex s; t_env = opt_of str_of_hex ev; t_def = z_of_int (int_of_string df); t_rev = bool_of r }
         | _ -> failwith "tdecl") (entries ts);
-      d_allowed = (if allowed = "~" then None else Some (nat_of_int (int_of_string allowed)));
+      (* a finite limit beyond any vector a case can hold (>= 10^6) is observationally the unlimited one: `full` can never become
+         true; the model keeps unary numbers small that way while the C++ side is given the real 2^32, 2^32+1, 2^40, ... *)
+      d_allowed = (if allowed = "~" then None else
+                   match int_of_string_opt allowed with
+                   | Some k when k < 1000000 -> Some (nat_of_int k)
+                   | _ -> None);
       d_greedy = bool_of greedy }
   | _ -> failwith "decl"
 let parse_env (w : string) : byte list -> byte list option =
